@@ -113,6 +113,14 @@ static void build_archives(void)
 	a->n -= 350;
 	a->m[1].data_len -= 350;
 	TRUNCATED_LAST[7] = 1;
+	/* 8: a directory with two sub-directories and a file after them (pop of a child must not disturb the parent) */
+	a = &ARCS[NARCS++]; ab_init(a, 1 << 18);
+	ab_add(a, 2, 1, "-lhd-", "P/", "", NULL, 0, 0, 1, 040555, 1262304010);
+	ab_add(a, 2, 1, "-lhd-", "P/a/", "", NULL, 0, 0, 1, 040700, 1262304011);
+	ab_add(a, 2, 0, "-lh0-", "P/a/", "f1", NULL, 20, 21, 1, 0100644, 1262304000);
+	ab_add(a, 2, 1, "-lhd-", "P/b/", "", NULL, 0, 0, 1, 040755, 1262304012);
+	ab_add(a, 2, 0, "-lh5-", "P/b/", "f2", NULL, 300, 22, 1, 0100600, 1262304000);
+	ab_add(a, 2, 0, "-lh0-", "P/", "z", NULL, 5, 23, 1, 0100644, 1262304000);
 }
 
 /* ------------------------------------------------------------------ sandbox */
@@ -247,6 +255,7 @@ typedef struct {
 	int full_entries;       /* entries that get the full menu; later ones get the fixed action */
 	int cut_after;          /* stop after this many operations (-1: run to the end), then free */
 	int leak_check;
+	int check_tree;
 } run_opts;
 
 /* harness bookkeeping must not count as library allocations */
@@ -396,6 +405,38 @@ static void execute(const ab_arc *a, int ai, int policy, vf_enum *e, const run_o
 	lha_reader_free(rd);
 	lha_input_stream_free(st);
 	TRACK = 0;
+	if (ro->check_tree && !FAULT_FIRED) {
+		/* every entry was extracted with the header's own names: the tree must carry the recorded contents, and for
+		 * the two deferring policies every directory its recorded mode and modification time although its children
+		 * were written after it was created */
+		int k;
+		for (k = 0; k < a->nm; ++k) {
+			const ab_member *x = &a->m[k];
+			char full[300];
+			struct stat sb;
+			snprintf(full, sizeof full, "%s%s", x->path, x->name);
+			if (x->kind == 1) {
+				if (full[0] && full[strlen(full) - 1] == '/') full[strlen(full) - 1] = 0;
+				if (lstat(full, &sb) != 0 || !S_ISDIR(sb.st_mode)) { vf_viol("c06-policy-dir-missing", "policy %d: directory %s missing after extracting everything", policy, full); continue; }
+				if (x->unix_meta && (sb.st_mode & 0777) != (x->perms & 0777)) vf_viol("c06-policy-dir-mode", "policy %d: directory %s has mode %o, recorded %o", policy, full, (unsigned) sb.st_mode & 0777, x->perms & 0777);
+				if (policy != LHA_READER_DIR_PLAIN && x->level >= 1 && (uint32_t) sb.st_mtime != x->mtime) {
+					/* a directory that holds a deferred link is re-timed when the link is created at the end: outside the guarantee */
+					int holds_deferred = 0, j;
+					for (j = 0; j < a->nm; ++j) if (a->m[j].kind == 2 && is_dangerous(a->m[j].target) && !strcmp(a->m[j].path, x->path)) holds_deferred = 1;
+					if (!holds_deferred) vf_viol("c06-policy-dir-mtime", "policy %d: directory %s has mtime %ld, recorded %u", policy, full, (long) sb.st_mtime, x->mtime);
+				}
+			} else if (x->kind == 0 && x->supported && member_intact(&m, k)) {
+				FILE *f = __real_fopen(full, "rb");
+				const uint8_t *want = x->visible ? x->visible : x->plain;
+				size_t wl = x->visible ? x->visible_len : x->plain_len, n;
+				static uint8_t fb[1 << 16];
+				if (!f) { vf_viol("c06-policy-file-missing", "policy %d: %s missing after extracting everything", policy, full); continue; }
+				n = fread(fb, 1, sizeof fb, f);
+				__real_fclose(f);
+				if (n != wl || memcmp(fb, want, wl)) vf_viol("c06-policy-file-content", "policy %d: %s has %zu bytes, expected %zu (or content differs)", policy, full, n, wl);
+			}
+		}
+	}
 	if (ro->leak_check && LEAKS) {
 		int fds1 = count_fds();
 		if (ALLOC_BAL != bal0) vf_viol("c20-leak", "%ld allocation(s) not released after freeing reader and stream (archive %d, %ld operations%s)", ALLOC_BAL - bal0, ai, OPS, FAULT_FIRED ? ", after an injected allocation failure" : "");
@@ -616,6 +657,8 @@ int main(int argc, char **argv)
 			if (only_arc >= 0 && ai != only_arc) continue;
 			/* the action vector has one digit per entry that gets the full menu; executions that meet fewer
 			 * entries ignore the tail: those vectors are run once (tail all zero) */
+			/* the all-extract history: optionally also compare the resulting tree (C06, library policies) */
+			{ long long t = idx; int all = 1, q; for (q = 0; q < full; ++q, t /= A_COUNT) if (t % A_COUNT != A_EXTRACT) all = 0; ro.check_tree = all && !prefixes && !faults && atoi(vf_extra("tree", "0")); if (atoi(vf_extra("treeonly", "0")) && !all) continue; }
 			if (!vf_case("archive=%d policy=%d actions #%lld", ai, policy, idx)) continue;
 			ro.full_entries = full; ro.cut_after = -1; ro.leak_check = 1;
 			set_choices(&e, idx, full);
